@@ -14,7 +14,7 @@ Print Assumptions C13_failed_update_intact.
    and the backend is notified exactly once per successful change *)
 Theorem C13_table_is_accepted_regions : forall s o s' r,
   mop_apply s o = (s', r) ->
-  (forall x, In x (m_regs (d_mem s')) <-> In x (abs_step (m_regs (d_mem s)) o (d_ok r)))
+  (forall x, In x (m_regs (d_mem s')) <-> In x (abs_step (m_log (d_mem s)) (m_regs (d_mem s)) o (d_ok r)))
   /\ m_upd (d_mem s') = m_upd (d_mem s) + (if d_ok r then 1 else 0).
 Proof. exact mop_step_table. Qed.
 Print Assumptions C13_table_is_accepted_regions.
@@ -43,10 +43,11 @@ Theorem C13_translation_rejects_unmapped : forall maps va,
 Proof. exact va_to_gpa_none. Qed.
 Print Assumptions C13_translation_rejects_unmapped.
 
-(* a byte the backend writes at a guest address is the byte of the passed file at mmap_offset + offset,
+(* a byte the backend writes at a guest address (of a region without dirty logging; C15 covers the log) is the byte
+   of the passed file at mmap_offset + offset,
    and a byte the frontend writes there is what the backend reads *)
 Theorem C13_backend_write_visible : forall m a b m' r,
-  region_of (m_regs m) a = Some r -> mem_write m a [b] = (m', true) ->
+  region_of (m_regs m) a = Some r -> rg_log r = None -> mem_write m a [b] = (m', true) ->
   fbyte_of m' (rg_file r) (rg_off r + (a - rg_gpa r)) = b /\ mem_read m' a 1 = Some [b].
 Proof. exact backend_write_visible. Qed.
 Print Assumptions C13_backend_write_visible.
